@@ -13,6 +13,7 @@ from pulsarbat import Phase
 from .. import exact, gen, probes
 
 from ..replay import wl_R
+from ..core import ValidInputRefused
 
 RULE = ("counts 0..+-2^52 by magnitude decade x fractions {uniform, +-1/2, +-1/4, tiny (1e-300..1e-17), unnormalised (n, 7.3)} x operand kind "
         "{int, float, np.float64, np.float32, np.int64, 0-d array, n-d array, Quantity[cycle], Quantity[dimensionless/percent], Phase} x "
@@ -315,7 +316,7 @@ class PhaseMonitor:
 # ------------------------------------------------------------------------------------------------
 COUNT_DECADES = [0, 1, 3, 6, 9, 12, 15, "2^52"]
 FRAC_KINDS = ["uniform", "half", "quarter", "tiny", "unnorm", "zero"]
-OPERANDS = ["int", "float", "np64", "np32", "npint", "arr0", "arrn", "q_cycle", "q_one", "phase", "q_percent", "q_deg"]
+OPERANDS = ["int", "float", "np64", "np32", "npint", "arr0", "arrn", "q_cycle", "q_one", "phase", "q_percent", "q_deg", "arrb"]
 
 
 def rand_count(rng, dec):
@@ -345,10 +346,14 @@ def make_phase(rng, dec, fk, shape=(), imaginary=False):
     c = np.array([rand_count(rng, dec) for _ in range(n)]).reshape(shape)
     f = np.array([rand_frac(rng, fk) for _ in range(n)]).reshape(shape)
     with probes.quiet():
-        if imaginary:
-            p = Phase(c * 1j, f * 1j)
-        else:
-            p = Phase(c, f)
+        try:
+            if imaginary:
+                p = Phase(c * 1j, f * 1j)
+            else:
+                p = Phase(c, f)
+        except Exception as exc:
+            raise ValidInputRefused("phase_new", f"Phase({'imaginary' if imaginary else 'real'} count {c!r:.80}, fraction {f!r:.80}) raised "
+                                                 f"{type(exc).__name__}: {exc}", {"imaginary": imaginary})
     return p
 
 
@@ -368,6 +373,10 @@ def make_operand(rng, kind, shape, small=True):
         return np.array(mag)
     if kind == "arrn":
         return rng.uniform(-5, 5, size=shape if shape else (3,)) + 6
+    if kind == "arrb":
+        # an array that broadcasts the phase to a larger shape: a column against a row, a vector against a length-1 / scalar phase
+        shp = {(): (4,), (1,): (4,), (3,): (2, 1), (2, 2): (3, 1, 1)}.get(tuple(shape), (2,) + (1,) * len(shape))
+        return rng.uniform(-5, 5, size=shp) + 6
     if kind == "q_cycle":
         return mag * u.cycle
     if kind == "q_one":
@@ -386,7 +395,7 @@ def wl_arith(ctx, idx, rng):
     fk = FRAC_KINDS[(idx // len(COUNT_DECADES)) % len(FRAC_KINDS)]
     ok_ = OPERANDS[(idx // (len(COUNT_DECADES) * len(FRAC_KINDS))) % len(OPERANDS)]
     opname = ["add", "sub", "mul", "div", "neg", "abs", "pos", "radd", "rsub", "rmul"][int(rng.integers(10))]
-    shape = gen.pick(rng, [(), (), (3,), (2, 2)])
+    shape = gen.pick(rng, [(), (), (3,), (2, 2), (1,)])
     imaginary = rng.random() < 0.12
     p = make_phase(rng, dec, fk, shape, imaginary)
     x = make_operand(rng, ok_, shape)
@@ -403,9 +412,9 @@ def wl_arith(ctx, idx, rng):
            "abs": lambda: abs(p), "pos": lambda: +p, "radd": lambda: x + p, "rsub": lambda: x - p, "rmul": lambda: x * p}
     # which combinations are in the property's domain
     cyc = ok_ in ("q_cycle", "q_deg", "phase")
-    dimless = ok_ in ("int", "float", "np64", "np32", "npint", "arr0", "arrn", "q_one", "q_percent") or isinstance(x, complex)
+    dimless = ok_ in ("int", "float", "np64", "np32", "npint", "arr0", "arrn", "arrb", "q_one", "q_percent") or isinstance(x, complex)
     if opname in ("add", "sub", "radd", "rsub"):
-        valid = (cyc or ok_ in ("int", "float", "np64", "np32", "npint", "arr0", "arrn")) and not isinstance(x, complex)
+        valid = (cyc or ok_ in ("int", "float", "np64", "np32", "npint", "arr0", "arrn", "arrb")) and not isinstance(x, complex)
         if imaginary and not isinstance(x, Phase):
             valid = False
         if isinstance(x, Phase) and bool(x.imaginary) != imaginary:
